@@ -678,11 +678,12 @@ def _get_sprite_evaluated(ctx, res, g, sizes, setter_parity):
               'evaluated on symbolic sheet memory for all 256 ids at 1x1 and '
               '18 larger tile sizes ({} calls): every pixel is the nibble '
               'set_sprite writes'.format(len(cases)),
-              bad or 'setter nibble map {}'.format(setter_parity), g.loc)
+              bad or 'setter nibble map {}'.format(setter_parity), g.loc,
+              semantic=True)
     res.check(bad is None or 'raises' not in bad, 'R-C17-bounds', g.qual,
               'get_sprite: every sheet access in bounds (evaluated)',
               '{} calls evaluated, none raises'.format(len(cases)),
-              bad or '', g.loc)
+              bad or '', g.loc, semantic=True)
 
 
 # ------------------------------------------------------------------- map ---
